@@ -12,7 +12,7 @@ claimed = {
  "C10": ("exploration", "Stream close / FIN / RST / Conn.Close / server kill at a PRNG instant x accept mode (non-poll, poll fallback, poll epoll-model); oracle: blocked readers on both ends released with ErrStreamShutdown, handler goroutine returned before the harness tears the world down (for a stream close: although the connection lives on), later Read/Write report ErrStreamShutdown, sibling streams and calls undisturbed; up to two readers per stream end, faults also timed to stream progress points."),
  "C11": ("exploration", "Handlers retain argument bytes, callers retain replies (incl. caller-supplied context buffers with a guard pattern) and stream messages, followed by >=4x further traffic in the same pool size classes with LIFO pool reuse; oracle: digests unchanged at end of run and right at hand-over, nothing written beyond the reply length, buffer used iff large enough."),
  "C08": ("fault_enumeration", "Adversarial peers that speak the wire format: every truncation, every single-byte corruption (8 values quick / all 255 thorough) and every upgrade byte of every corpus frame kind under each header encoder against a real server (each followed by a well-formed probe on the same connection, next to a well-formed client on another), an adversarial server against a real client, and bursts of 1..64 requests followed at once by a disconnect under schedule search; oracle: no goroutine of the library panics (the simulator records panic value and stack), probes and sibling traffic are served, the run reaches quiescence. Not exhaustive: schedules are sampled and multi-byte corruptions are only sampled."),
- "C12": ("exploration", "Each run executes one generated workload twice inside the simulator: under a reference configuration and under a PRNG-chosen combination of header encoder x body codec x options-by-name/constructor x server poll(fallback|epoll-model)/pipelining/direct I/O/context buffer/NoCopy x client pipelining/direct I/O/NoCopy x buffer sizes {1,64,4K,64K,1M}; oracle: per-call outcome transcripts and executed-id multisets are equal to each other and to the plan's prediction, per-stream delivery included. Real tcp/unix/http/ws/inproc sockets and TLS are outside the simulator and not covered."),
+ "C12": ("exploration", "Each run executes one generated workload twice inside the simulator: under a reference configuration and under a PRNG-chosen combination of header encoder x body codec x options-by-name/constructor x server poll(fallback|epoll-model)/pipelining/direct I/O/context buffer/NoCopy x client pipelining/direct I/O/NoCopy x buffer sizes {1,64,4K,64K,1M}; oracle: per-call outcome transcripts and executed-id multisets are equal to each other and to the plan's prediction, per-stream delivery included. Real tcp/unix/http/ws/inproc sockets and TLS are outside the simulator and not covered (only that Options.TLSConfig reaches the socket constructor on both ends is observed)."),
  "C13": ("exploration", "Real Transport over simnet with limits from {<=0,1,2,3,8} x idle limits (some above the connection limit), 1-3 addresses, 1-6 concurrent callers of every call form, CloseIdleConnections, kill/restart, spacing relative to KeepAlive/IdleConnTimeout/tick; invariant checked at every dial, after every operation and by a 230 ms monitor: open connections per address <= effective MaxConnsPerHost, idle <= effective MaxIdleConnsPerHost, active+idle <= limit (read-only accessor added to the scratch copy), normalisation rule."),
  "C14": ("exploration", "Servers echo their identity and incarnation; kill/restart sequences per address with call spacings around KeepAlive/IdleConnTimeout/tick; oracle: reply identity == requested address, request frames only on connections dialed to that address (wire tap), calls during a whole down interval fail promptly with ErrDial/ErrShutdown, a sequential caller sees at most MaxConnsPerHost failures after the restart."),
  "C15": ("exploration", "A call lasting 3-43 simulated seconds and an open stream spanning many housekeeping ticks, next to short calls and CloseIdleConnections at PRNG instants, KeepAlive <,=,> IdleConnTimeout (also below the tick); safety: no call whose request was written and no open stream fails; liveness: all connections closed KeepAlive+IdleConnTimeout+3 ticks after the last traffic, and immediately after Transport.Close."),
